@@ -90,7 +90,7 @@ func runC09(t *kernel.Tape, opt core.Opts) *core.Outcome {
 		return alt(t, opt) // the bundled ReAct agent called by several tasks at once
 	}
 	o := &core.Outcome{}
-	g := GenOpts{Modes: []int{ModePregel, ModeDAG, ModeWorkflow}, MaxNodes: 5, Depth: 2, Cycles: true, State: 60,
+	g := GenOpts{Modes: []int{ModePregel, ModeDAG, ModeWorkflow}, MaxNodes: 6, Depth: 2, Cycles: true, State: 60,
 		Streams: t.PlanBool(60), Handlers: true, Yields: 2, Parallelism: t.PlanBool(40)}
 	p := Generate(t, g)
 	nc := 2 + t.Plan(3)
@@ -100,7 +100,7 @@ func runC09(t *kernel.Tape, opt core.Opts) *core.Outcome {
 	for i := range calls {
 		in := M{"in": fmt.Sprintf("x%d", i)}
 		calls[i] = &Call{Tag: fmt.Sprintf("r%d", i), Paradigm: t.Plan(4), In: in, InCut: t.Plan(3), InPipe: t.PlanBool(50), StopAfter: -1}
-		models[i] = RunModel(p, in)
+		models[i] = RunModelOffset(p, in, i) // every caller takes different branch decisions
 		fmt.Fprintf(&sb, "%s ", paradigmNames[calls[i].Paradigm])
 	}
 	withHandlers := t.PlanBool(60)
@@ -111,6 +111,9 @@ func runC09(t *kernel.Tape, opt core.Opts) *core.Outcome {
 	defer s.Close()
 	s.KeepTrace = opt.KeepTrace
 	env := NewEnv(s)
+	for i, c := range calls {
+		env.ScriptOffset[c.Tag] = i
+	}
 	b := &builder{env: env, top: p}
 	r, err := b.Compile(context.Background(), p)
 	if err != nil {
@@ -146,8 +149,10 @@ func runC09(t *kernel.Tape, opt core.Opts) *core.Outcome {
 			o.Violate("C09/callback-context-leak", fmt.Sprintf("the handler passed by %s was invoked (%s %s) in the context of run %s", ev.Handler[4:], ev.Timing, ev.Name, ev.Tag))
 		}
 	}
-	if nc > 1 && models[0].Err == ErrNone {
-		checkState(o, p, env, models[0], tagsOf(calls))
+	for i, c := range calls {
+		if models[i].Err == ErrNone {
+			checkState(o, p, env, models[i], []string{c.Tag})
+		}
 	}
 	foldEnv(o, env)
 	o.Stat("callers", nc)
